@@ -22,6 +22,7 @@ package zap
 
 import (
 	"fmt"
+	"reflect"
 	"time"
 
 	"go.uber.org/zap/zapcore"
@@ -221,9 +222,29 @@ type stringers[T fmt.Stringer] []T
 
 func (os stringers[T]) MarshalLogArray(arr zapcore.ArrayEncoder) error {
 	for _, o := range os {
-		arr.AppendString(o.String())
+		s, err := callString(o)
+		if err != nil {
+			return err
+		}
+		arr.AppendString(s)
 	}
 	return nil
+}
+
+// callString calls String on the provided value, guarding against panics
+// (from nil elements or otherwise) like the Stringer field does.
+func callString(stringer fmt.Stringer) (s string, retErr error) {
+	defer func() {
+		if err := recover(); err != nil {
+			// If it's a nil pointer, just say "<nil>".
+			if v := reflect.ValueOf(stringer); !v.IsValid() || (v.Kind() == reflect.Ptr && v.IsNil()) {
+				s = "<nil>"
+				return
+			}
+			retErr = fmt.Errorf("PANIC=%v", err)
+		}
+	}()
+	return stringer.String(), nil
 }
 
 // Times constructs a field that carries a slice of time.Times.
